@@ -13,6 +13,7 @@ package agreement
 //   its stake (sortition with p = 1). Two weight variants:
 //     w1122: stakes 1,1,2,2 (committee 6), threshold 4
 //     w1111: stakes 1,1,1,1 (committee 4), threshold 3
+//     w11122 (thorough tier only): five senders a..e, stakes 1,1,1,2,2 (committee 7), threshold 5
 //   Steps soft, cert, next (one exploration per variant x step = 6 explorations).
 //   Values: x, y have different block digests; z has the SAME block digest as x but a
 //   different encoding digest (values are whole proposal-values, not digests); in step
@@ -46,13 +47,18 @@ package agreement
 //   thresholdEvent, makeVote, unauthenticatedVote.verify, unauthenticatedBundle.verify,
 //   makeTestLedgerWithConsensusVersion (upstream test helper), proposalValue, rawVote.
 // Mutants (bin/mut, quick tier), all DETECTED:
-//   1. voteTracker.go: `if len(tracker.Voters) == 0 {` -> `if true {`  (return before
-//      re-checking the threshold after an equivocation)
-//   2. voteTracker.go: overBefore computed after the update (moved below the tally update)
-//   3. voteTracker.go: count() drops EquivocatorsCount
-//   4. voteTracker.go: `len(tracker.Voters) == 0` -> `<= 1` (own; needs the 5-step
-//      sequence d:x a:x a:y b:y b:z where the last equivocation completes x's quorum)
-//   5. voteTracker.go: genBundle packs no equivocation pairs (bundle below quorum)
+//   1. voteTracker.go: `if len(tracker.Voters) == 0 {` -> `if true {` (return before
+//      re-checking the threshold after an equivocation)       -> C06:missing-threshold
+//   2. voteTracker.go: overBefore re-computed after the update -> C06:missing-threshold
+//   3. voteTracker.go: count() drops EquivocatorsCount         -> C06:count (and missing-threshold)
+//   4. voteTracker.go: `len(tracker.Voters) == 0` -> `<= 1` (own; the equivocation of c in
+//      c:y d:x c:x completes x's quorum while d is the only plain voter) -> C06:missing-threshold
+//   5. voteTracker.go: signatures of the stored equivocation pair swapped (own; the emitted
+//      bundle no longer verifies)                              -> C06:bundle-vote-content
+//   6. voteTracker.go: `if overBefore || !overAfter` -> overBefore ignored (threshold
+//      emitted again)                                          -> C06:panic (contract "emitted twice")
+//   7. voteTracker.go: the equivocator's weight is not subtracted from its first value
+//      (own)                                                   -> C06:panic (makeBundle: not enough votes) / C06:count
 
 import (
 	"context"
@@ -63,6 +69,8 @@ import (
 	"sync"
 	"testing"
 
+	"github.com/sirupsen/logrus"
+
 	"github.com/algorand/go-algorand/config"
 	"github.com/algorand/go-algorand/crypto"
 	"github.com/algorand/go-algorand/data/basics"
@@ -72,12 +80,13 @@ import (
 )
 
 const (
-	c06NSenders = 4
+	c06NSenders = 5 // capacity; a variant uses its first n senders
 	c06NValues  = 3
 )
 
 type c06Variant struct {
 	name    string
+	n       int // senders
 	weights [c06NSenders]uint64
 	thr     uint64
 }
@@ -124,7 +133,7 @@ func c06MakeEnv(v c06Variant, steps []step) (*c06Env, error) {
 	state := map[basics.Address]basics.AccountData{}
 	vrfs := make([]*crypto.VRFSecrets, c06NSenders)
 	ots := make([]crypto.OneTimeSigner, c06NSenders)
-	for i := 0; i < c06NSenders; i++ {
+	for i := 0; i < v.n; i++ {
 		var seed [32]byte
 		copy(seed[:], fmt.Sprintf("verif-c06-%s-acct-%d", v.name, i))
 		pk, sk := crypto.VrfKeygenFromSeed(seed)
@@ -161,7 +170,7 @@ func c06MakeEnv(v c06Variant, steps []step) (*c06Env, error) {
 		vals := &[c06NValues]proposalValue{x, y, z}
 		env.vals[s] = vals
 		tab := &[c06NSenders][c06NValues]vote{}
-		for i := 0; i < c06NSenders; i++ {
+		for i := 0; i < v.n; i++ {
 			for k := 0; k < c06NValues; k++ {
 				rv := rawVote{Sender: env.addrs[i], Round: rnd, Period: 0, Step: s, Proposal: vals[k]}
 				uv, err := makeVote(rv, ots[i], vrfs[i], env.ledger)
@@ -328,7 +337,11 @@ func (y *c06Sys) anyOver(r *c06Ref) (n int, which int) {
 func (y *c06Sys) handle(e event) (out event, panicked string) {
 	defer func() {
 		if x := recover(); x != nil {
-			panicked = fmt.Sprint(x)
+			if ent, ok := x.(*logrus.Entry); ok {
+				panicked = ent.Message // without the entry's timestamp: messages must be reproducible
+			} else {
+				panicked = fmt.Sprint(x)
+			}
 		}
 	}()
 	rnd := y.env.ledger.NextRound()
@@ -497,8 +510,12 @@ func TestVerif_C06(t *testing.T) {
 	r := ve.NewRun("C06", "model_checking")
 	steps := []step{soft, cert, next}
 	variants := []c06Variant{
-		{name: "w1122", weights: [c06NSenders]uint64{1, 1, 2, 2}, thr: 4},
-		{name: "w1111", weights: [c06NSenders]uint64{1, 1, 1, 1}, thr: 3},
+		{name: "w1122", n: 4, weights: [c06NSenders]uint64{1, 1, 2, 2}, thr: 4},
+		{name: "w1111", n: 4, weights: [c06NSenders]uint64{1, 1, 1, 1}, thr: 3},
+	}
+	if ve.Thorough() {
+		// a fifth sender: the state space is no longer exhausted at depth 7
+		variants = append(variants, c06Variant{name: "w11122", n: 5, weights: [c06NSenders]uint64{1, 1, 1, 2, 2}, thr: 5})
 	}
 	depth := ve.Pick(7, 9)
 	var cov ve.Coverage
@@ -513,7 +530,7 @@ func TestVerif_C06(t *testing.T) {
 			s := s
 			q := &ve.Seq[*c06Sys]{
 				Name:   fmt.Sprintf("votetracker/%s/step%d", v.name, s),
-				NumOps: c06NSenders * c06NValues,
+				NumOps: v.n * c06NValues,
 				OpName: func(op int) string {
 					return fmt.Sprintf("%c:%c", 'a'+op/c06NValues, 'x'+op%c06NValues)
 				},
@@ -541,7 +558,7 @@ func TestVerif_C06(t *testing.T) {
 		}
 	}
 	r.Set("distinct_bundles_verified_with_real_signatures", bundles)
-	cov.Rule = fmt.Sprintf("BFS over all sequences (length <= %d) of voteAccepted(sender in a..d, value in x,y,z) incl. duplicates, equivocations and votes of known equivocators, on the real voteTracker behind a real stepRouter/contract, for weights (1,1,2,2; thr 4) and (1,1,1,1; thr 3) x steps soft, cert, next; real signed votes; states merged by the complete tracker+contract+reference state; sequences leaving the honest-majority assumption are pruned by the reference tally", depth)
+	cov.Rule = fmt.Sprintf("BFS over all sequences (length <= %d) of voteAccepted(sender in a..d, value in x,y,z) incl. duplicates, equivocations and votes of known equivocators, on the real voteTracker behind a real stepRouter/contract, for weights (1,1,2,2; thr 4) and (1,1,1,1; thr 3) (thorough: also 5 senders 1,1,1,2,2; thr 5) x steps soft, cert, next; real signed votes; states merged by the complete tracker+contract+reference state; sequences leaving the honest-majority assumption are pruned by the reference tally", depth)
 	r.Assume("sequences after which the equivocators alone reach the threshold or two values both reach it are outside the protocol assumption (code Panicf's by design) and are not explored")
 	r.Assume("private consensus version with committee size == total online stake, so credential weight == stake for every (round, period, step); checked for every vote used")
 	r.Assume("one-time signature / VRF primitives (libsodium) are trusted")
